@@ -260,7 +260,7 @@ func curOpenHelpers(c *Ctx, ct *curType) map[*ssa.Function]bool {
 			if fn == open || helpers[fn] {
 				continue
 			}
-			edges := c.P.Callers(fn)
+			edges := scpCallers(c, fn, true)
 			n, all := 0, true
 			for _, e := range edges {
 				caller := outer(e.Caller.Func)
@@ -504,10 +504,7 @@ func curGuardedHelper(c *Ctx, ct *curType, fn *ssa.Function, depth int) (bool, s
 	owner := ct.field("view")
 	n := 0
 	var callers []string
-	for _, e := range c.P.Callers(fn) {
-		if e.Site == nil || e.Caller == nil || e.Caller.Func == nil {
-			continue
-		}
+	for _, e := range scpCallers(c, fn, true) {
 		caller := e.Caller.Func
 		if caller == fn {
 			continue
@@ -741,7 +738,13 @@ func ruleCur4(c *Ctx) {
 		if !complete {
 			bad = "the address of the fetch position escapes"
 		}
-		for path, vals := range stores {
+		var paths []string
+		for path := range stores {
+			paths = append(paths, path)
+		}
+		sort.Strings(paths)
+		for _, path := range paths {
+			vals := stores[path]
 			for _, v := range vals {
 				n, isInt := core.ConstInt(v)
 				switch {
